@@ -64,6 +64,8 @@ class Table(Suite):
             cases.append({"s": gen.pick_scheme(rng), "D": D, "past": random_past(rng, D)})
         # candidates: random complete rankings over the universe
         for c in cases:
+            if rng.random() < 0.25:
+                c["neighbours"] = True
             univ = sorted({e for r in c["D"] for b in r for e in b})
             if c.get("past"):
                 univ = [e for e in univ if e not in c["past"]["remove"]] or univ
@@ -77,6 +79,16 @@ class Table(Suite):
             give_a_past(ds, case["past"], sc)
         P = ds.get_positions()
         B = ds.get_bucket_ids()
+        if case.get("neighbours"):
+            # the tables of the same matrices under proportional schemes were asked for just before, in the same process (a memo keyed on
+            # anything coarser than the penalties themselves is then stale)
+            for k in (2.0, 0.5):
+                try:
+                    s2 = ScoringScheme([[x * k for x in case["s"][0]], [x * k for x in case["s"][1]]])
+                    PairwiseBasedAlgorithm.pairwise_cost_matrix(P, s2)
+                    PairwiseBasedAlgorithm.pairwise_cost_matrix(B, s2)
+                except Exception:
+                    pass
         MP = PairwiseBasedAlgorithm.pairwise_cost_matrix(P, sc)
         MB = PairwiseBasedAlgorithm.pairwise_cost_matrix(B, sc)
         k = KemenyComputingFactory(sc)
@@ -103,6 +115,7 @@ class Table(Suite):
         n = len(out["U"])
         acc[f"n={n}"] = acc.get(f"n={n}", 0) + 1
         inc = any(-1 in row for row in out["P"])
+        acc["after_proportional_schemes"] = acc.get("after_proportional_schemes", 0) + int(bool(case.get("neighbours")))
         acc["incomplete"] = acc.get("incomplete", 0) + int(inc)
         acc["with_ties"] = acc.get("with_ties", 0) + int(any(len(b) > 1 for r in out["listing"] for b in r))
         acc["with_empty_ranking"] = acc.get("with_empty_ranking", 0) + int(any(len(r) == 0 for r in out["listing"]))
